@@ -371,6 +371,22 @@ func (w *c16Worker) typeCase(idx int, T reflect.Type, kinds map[string]int, decl
 			outOfModel = true
 		}
 	}
+	// a variable reaches EVERY leaf that derives its name (two leaves can share one: a custom tag equal to another
+	// field's derived name), also one that was not drawn above
+	for _, l := range leaves {
+		name := l.name
+		if pfx != "" {
+			name = pfx + "_" + name
+		}
+		if txt, isSet := set[name]; isSet && l.name != "" {
+			if hasExternalKind(l.typ) || !isASCII(txt) {
+				extBad = true
+			}
+			if !c16InModel(l.typ) {
+				outOfModel = true
+			}
+		}
+	}
 	keys := make([]string, 0, len(set))
 	for k := range set {
 		keys = append(keys, k)
